@@ -251,23 +251,38 @@ def impl_regular(spec, opspec):
     return fields, vals
 
 
+HEADER = ("From Snax Require Import Base.Prelude Model.C08StreamerCfg Model.C08Check.\n"
+          "From Coq Require Import String.\n")
+
+
+def run_groups(name, groups, chunk=40, par=8, header=HEADER):
+    """groups = [(kind, coq test function, [case literal], [meta])]; shards every group into cases files of
+    `chunk` cases, evaluates them in parallel, returns the disagreements."""
+    texts, index = [], []
+    for kind, test, cases, meta in groups:
+        for a in range(0, len(cases), chunk):
+            part = cases[a:a + chunk]
+            texts.append(header + f"Definition cases := {coqlist(part)}.\nEval vm_compute in failing ({test}) cases.\n")
+            index.append((kind, a, cases, meta))
+    dis = []
+    for (ok, out), (kind, a, cases, meta) in zip(vlib.coq_eval_many(name, texts, timeout=900, par=par), index):
+        lists = vlib.parse_all_eval_lists(out)
+        if not ok or len(lists) != 1:
+            dis.append({"name": f"cases-file:{kind}", "detail": out[-2000:]})
+            continue
+        for idx in lists[0]:
+            dis.append({"name": f"L1:{kind}", "case": meta[a + idx], "coq_case": cases[a + idx][:800]})
+    return dis
+
+
 def correspondence(ctx):
     rng = ctx.rng
     oc = opt_classes()
-    dis = []
-    text = ["From Snax Require Import Base.Prelude Model.C08StreamerCfg Model.C08Check.", "From Coq Require Import String."]
-    order, metas, allcases = [], {}, {}
-
-    def add(kind, test, cases, meta):
-        order.append(kind)
-        metas[kind] = meta
-        allcases[kind] = cases
-        text.append(f"Definition cases_{kind} := {coqlist(cases)}.")
-        text.append(f"Eval vm_compute in failing ({test}) cases_{kind}.")
+    groups = []
 
     # csr_length of every extension class
     lens = [f"({e}, {oc[e]().csr_length}%nat)" for e in EXT_KINDS]
-    add("len", "chk_len", lens, list(EXT_KINDS))
+    groups.append(("len", "chk_len", lens, list(EXT_KINDS)))
     for e in EXT_KINDS:
         ctx.count({"csr_length": e}, False, None, "csr_length")
 
@@ -282,16 +297,9 @@ def correspondence(ctx):
         meta.append({"cfg": spec, "op": opspec, "fields": fields, "vals": vals})
         ctx.count({"kind": "regular", "cfg": spec, "op": opspec, "raised": vals is None}, nontrivial(spec),
                   f"reg{spec}{opspec}", "regular" if vals is not None else "regular-raises")
-    add("regular", "chk_regular", cases, meta)
+    groups.append(("regular", "chk_regular", cases, meta))
 
-    ok, out = vlib.coq_eval("c08", "\n".join(text) + "\n", timeout=900)
-    lists = vlib.parse_all_eval_lists(out)
-    if not ok or len(lists) != len(order):
-        return [{"name": "cases-file", "detail": out[-2000:]}]
-    for k, bad in zip(order, lists):
-        for idx in bad:
-            dis.append({"name": f"L1:{k}", "case": metas[k][idx], "coq_case": allcases[k][idx][:800]})
-    return dis
+    return run_groups("c08", groups)
 
 
 # ---------------------------------------------------------------- L2: the property on the implementation
